@@ -23,6 +23,7 @@ from __future__ import annotations
 import builtins
 import io
 import os
+import threading
 
 _OS_PATH_FUNCS = ["stat", "lstat", "open", "mkdir", "rmdir", "unlink", "remove", "rename", "replace", "link", "symlink", "truncate", "chmod",
                   "readlink", "scandir", "listdir", "utime", "access", "chown", "makedirs"]
@@ -72,18 +73,21 @@ def rel(p: str) -> str:
     return p
 
 
+_TL = threading.local()  # the re-entrancy guard is per thread: one writer parked inside the hook must not switch the hook off for the other
+
+
 def boundary(name: str, info: str):
     """Record a boundary and consult the hook. Returns the hook's return value."""
-    if STATE.busy or STATE.hook is None:
+    if getattr(_TL, "busy", False) or STATE.hook is None:
         STATE.trace.append((name, info))
         return None
     idx = len(STATE.trace)
     STATE.trace.append((name, info))
-    STATE.busy = True
+    _TL.busy = True
     try:
         return STATE.hook(idx, name, info)
     finally:
-        STATE.busy = False
+        _TL.busy = False
 
 
 class FileProxy:
@@ -229,10 +233,10 @@ def install(roots, hook=None):
     real["fdopen"] = real_fdopen
 
     def fdo(fd, *a, **k):
-        if isinstance(fd, int) and fd in STATE.fds:
-            path = STATE.fds[fd]
-            return FileProxy(real_fdopen(fd, *a, **k), path)
-        return real_fdopen(fd, *a, **k)
+        f = real_fdopen(fd, *a, **k)  # os.fdopen goes through io.open, which is patched: usually already a proxy
+        if isinstance(fd, int) and fd in STATE.fds and not isinstance(f, FileProxy):
+            return FileProxy(f, STATE.fds[fd])
+        return f
 
     os.fdopen = fdo
     STATE.installed = True
